@@ -241,6 +241,15 @@ impl Mon {
                     };
                     if exp != got {
                         self.hit("C04", format!("below capacity: lookup of key {} returned {:?}, the TTL map says {:?}", idx, got, exp));
+                        if let Some((_, dl)) = self.spec.get(idx) {
+                            // the key was written and neither removed nor cleared: the discrepancy is about time
+                            let dl = *dl;
+                            if got.is_none() {
+                                self.hit("C03", format!("key {} written with deadline {:?} is not served at {} although it has not expired", idx, dl, now));
+                            } else {
+                                self.hit("C03", format!("key {} written with deadline {:?} is still served at {}", idx, dl, now));
+                            }
+                        }
                     }
                 }
                 if let (Op::GetMutWrite { val, idx, .. }, Some(old)) = (&op, got) {
@@ -275,6 +284,9 @@ impl Mon {
                     };
                     if exp != res {
                         self.hit("C04", format!("below capacity: get_ttl of key {} returned {}, the TTL map says {}", idx, res, exp));
+                        if self.spec.contains_key(idx) {
+                            self.hit("C03", format!("get_ttl of key {} returned {} but the writes made say {}", idx, res, exp));
+                        }
                     }
                 }
             }
